@@ -6,8 +6,32 @@ SHORT = 'queue'
 
 ENV = '''
 use std::collections::VecDeque;
+// ---- std operations without a vstd specification (assumed: they do what std documents)
+#[verifier::external_type_specification]
+#[verifier::external_body]
+#[verifier::reject_recursive_types(T)]
+#[verifier::reject_recursive_types(A)]
+pub struct ExDrain<'a, T: 'a, A: std::alloc::Allocator>(std::collections::vec_deque::Drain<'a, T, A>);
+pub mod axr { use vstd::prelude::*; verus! {
+pub uninterp spec fn spec_range_bounds<R>(r: R) -> (int, int);
+#[verifier::external_body]
+pub broadcast proof fn axiom_range_bounds(r: std::ops::Range<usize>)
+    ensures #[trigger] spec_range_bounds::<std::ops::Range<usize>>(r) == (r.start as int, r.end as int)
+{}
+} }
+pub use axr::spec_range_bounds;
+broadcast use axr::axiom_range_bounds;
+// drain(range) removes exactly the elements of the range (the returned iterator is dropped at once by the caller)
+pub assume_specification<T, A: std::alloc::Allocator, R: std::ops::RangeBounds<usize>> [VecDeque::<T, A>::drain::<R>] (v: &mut VecDeque<T, A>, range: R) -> (r: std::collections::vec_deque::Drain<'_, T, A>)
+    requires 0 <= spec_range_bounds(range).0 <= spec_range_bounds(range).1 <= old(v)@.len(),
+    ensures final(v)@ == old(v)@.subrange(0, spec_range_bounds(range).0) + old(v)@.subrange(spec_range_bounds(range).1, old(v)@.len() as int);
+pub assume_specification<T, A: std::alloc::Allocator> [VecDeque::<T, A>::shrink_to_fit] (v: &mut VecDeque<T, A>)
+    ensures final(v)@ == old(v)@;
+pub uninterp spec fn spec_capacity<T, A: std::alloc::Allocator>(v: &VecDeque<T, A>) -> usize;
+pub assume_specification<T, A: std::alloc::Allocator> [VecDeque::<T, A>::capacity] (v: &VecDeque<T, A>) -> (r: usize)
+    ensures r == spec_capacity(v), r >= v@.len();
 // ---- environment (sliced stand-ins for types of the repository; only the fields the function touches)
-#[derive(Clone, Copy, PartialEq, Eq, Structural)]
+#[derive(Clone, Copy, PartialEq, Eq, Structural, Debug)]
 pub struct StatusCode { pub bits: u32 }
 impl StatusCode {
     pub const OVERFLOW: StatusCode = StatusCode { bits: 0x480 };
@@ -31,6 +55,21 @@ pub struct MonitoredItemNotification { pub client_handle: u32, pub value: DataVa
 pub struct EventFieldList { pub client_handle: u32 }
 pub enum Notification { MonitoredItemNotification(MonitoredItemNotification), Event(EventFieldList) }
 pub struct ReadValueId { pub node_id: u32 }
+pub type Duration = f64;   // as in lib/src/types/basic_types.rs
+pub struct ServerState { pub x: u8 }
+pub struct DecodingOptions { pub x: u8 }
+impl ServerState { #[verifier::external_body] pub fn decoding_options(&self) -> DecodingOptions { unimplemented!() } }
+pub struct AddressSpace { pub x: u8 }
+pub struct ExtensionObject { pub x: u8 }
+pub struct FilterType { pub x: u8 }
+impl FilterType {
+    #[verifier::external_body]
+    pub fn from_filter(filter: &ExtensionObject, decoding_options: &DecodingOptions) -> (r: Result<FilterType, StatusCode>) { unimplemented!() }
+}
+pub struct MonitoringParameters { pub client_handle: u32, pub sampling_interval: f64, pub filter: ExtensionObject, pub queue_size: u32, pub discard_oldest: bool }
+pub struct MonitoredItemModifyRequest { pub monitored_item_id: u32, pub requested_parameters: MonitoringParameters }
+// the revised queue size (C23: between 1 and the server maximum) as an uninterpreted function of the request
+pub uninterp spec fn spec_revised_queue_size(server_state: &ServerState, requested: usize) -> usize;
 
 // ---- specification
 // the notification as stored: the sample with the overflow bit (InfoBits Overflow, 0x480) set in its status
@@ -71,6 +110,35 @@ SPEC = {
             }),'''),
 }
 
+MODIFY_ENV = '''
+impl MonitoredItem {
+    #[verifier::external_body]
+    pub fn sanitize_sampling_interval(server_state: &ServerState, requested_sampling_interval: f64) -> f64 { unimplemented!() }
+    // contract proved on the real function by Kani (C23): 1 <= revised
+    #[verifier::external_body]
+    pub fn sanitize_queue_size(server_state: &ServerState, requested_queue_size: usize) -> (r: usize)
+        ensures r >= 1, r == spec_revised_queue_size(server_state, requested_queue_size)
+    { unimplemented!() }
+    #[verifier::external_body]
+    pub fn validate_filter(&self, address_space: &AddressSpace) -> Result<ExtensionObject, StatusCode> { unimplemented!() }
+}
+'''
+
+SPEC['modify'] = ('r', '''        ensures
+            // nothing but a rejected filter makes the call fail (there is no panic: every obligation below
+            // and every arithmetic operation / drain range in the body is discharged for all queue states)
+            ({
+                let q = old(self).notification_queue@;
+                let new_size = spec_revised_queue_size(server_state, request.requested_parameters.queue_size as usize);
+                let keep = if q.len() <= new_size { q.len() } else { new_size as nat };
+                // either the filter was rejected before anything about the queue changed ...
+                ||| (r is Err && final(self).notification_queue@ == q && final(self).queue_size == old(self).queue_size)
+                // ... or the queue now holds the most recent `keep` entries, in order, and fits the new size
+                ||| (final(self).queue_size == new_size && new_size >= 1
+                     && final(self).notification_queue@ == q.subrange(q.len() - keep, q.len() as int)
+                     && wf(*final(self)))
+            }),''')
+
 LEMMAS = '''
 // history statement: from an empty queue, any sequence of enqueue steps (each satisfying the proved contract)
 // keeps at most queue_size entries — by induction, since wf is preserved by every step
@@ -102,19 +170,26 @@ def build(manifest):
     # S1 for a function with a where clause: the contract goes after the where clause
     i = f.index('{', f.index('T: Into<Notification>'))
     f = f[:i].rstrip() + '\n' + SPEC['enqueue_notification_message'][1] + '\n    ' + f[i:]
-    st = src.struct('MonitoredItem', keep_fields=['item_to_monitor', 'discard_oldest', 'queue_size', 'notification_queue',
-                                                  'queue_overflow'])
+    st = src.struct('MonitoredItem', keep_fields=['item_to_monitor', 'client_handle', 'sampling_interval', 'filter',
+                                                  'discard_oldest', 'queue_size', 'notification_queue', 'queue_overflow',
+                                                  'timestamps_to_return'])
+    en = Src('types/service_types/enums.rs', manifest)
+    ttr = en.enum('TimestampsToReturn')
+    g = clean_fn(src.impl_fn(r'^impl MonitoredItem \{', 'modify'))
+    g = splice_contract(g, SPEC['modify'][1], SPEC['modify'][0])
     a = Asm()
-    a.add('use vstd::prelude::*;\nverus! {\nglobal size_of usize == 8;\n', 'prelude', 'env')
+    a.add('#![feature(allocator_api)]\nuse vstd::prelude::*;\nverus! {\nglobal size_of usize == 8;\n', 'prelude', 'env')
     a.add(ENV, 'env', 'env')
-    a.add(norm_vis(st), 'types', 'env')
+    a.add(norm_vis(ttr) + '\n' + norm_vis(st), 'types', 'env')
+    a.add(MODIFY_ENV, 'env2', 'env')
     a.add('impl MonitoredItem {')
     a.add(norm_vis(f), 'enqueue_notification_message', 'fn')
+    a.add(norm_vis(g), 'modify', 'fn')
     a.add('}')
     add_proof_fns(a, LEMMAS, 'lemma')
     add_proof_fns(a, CANARY, 'canary')
     a.add('}\nfn main() {}\n')
     return dict(asm=a, pid=PID, short=SHORT, clauses={k: v[1] for k, v in SPEC.items()},
-                twins={'enqueue_notification_message': 'c24::c24_enqueue_twin'}, witness={},
+                twins={}, witness={},
                 assumptions=['C24: queue_size >= 1 is the C23 postcondition of sanitize_queue_size',
                              'C24: StatusCode | is bitwise or on the 32 status bits; DataValue::status() is the stored status or Good'])
